@@ -1747,7 +1747,7 @@ def is_runner(prog, gid):
     """g must call its closure parameter and forward the result: g hands a closure K2 that calls the
     parameter (FnOnce::call_once on a generic param) to tokio spawn_blocking / block_in_place, and the
     completion of that hand-off precedes every exit of g."""
-    tab = _RUNNER.setdefault(id(prog), {})
+    tab = prog.__dict__.setdefault('_runner_memo', {})
     if gid in tab:
         return tab[gid]
     tab[gid] = False
@@ -1860,7 +1860,7 @@ def await_may_suspend(prog, a):
 
 
 def may_suspend(prog, cid):
-    tab = _SUSP.setdefault(id(prog), {})
+    tab = prog.__dict__.setdefault('_susp_memo', {})
     if cid in tab:
         return tab[cid]
     tab[cid] = False    # least fixpoint on recursion
